@@ -4,7 +4,7 @@ import BiotiteModel.Model.C14
 All real numbers travel as integers `k` meaning `k / 2^S` (`S` given by `new`).
 
 ```
-new S cs box sel coords      box: `-` | Lx,Ly,Lz | 9 ints (rows = box vectors, signed permutation of an orthorhombic box)   sel: `-` | bit string | `_`   coords: x,y,z,x,y,z,... | `_`
+new S cs box sel coords      box: `-` | Lx,Ly,Lz | 9 ints (full box matrix, rows = box vectors)   sel: `-` | bit string | `_`   coords: x,y,z,x,y,z,... | `_`
 atoms mode shape qs rad      mode: idx|mask  shape: s|m  rad: s:K | m:K,K,...
 cells mode shape qs rad      rad: s:C | m:C,C,...   (cell radii, plain integers)
 adj thr
@@ -17,6 +17,8 @@ open BiotiteModel BiotiteModel.C14 BiotiteModel.Proto
 structure St where
   S : Nat := 0
   cl : Option CL := none
+  /-- `some B`: the cell list was built with the general-box path (`mkG`) -/
+  gbox : Option M3 := none
 
 def q (S : Nat) (k : Int) : Rat := mkRat k (2 ^ S)
 
@@ -71,26 +73,17 @@ def parseSel (s : String) : Option (Option (List Bool)) :=
   else if s == "_" then some (some [])
   else some (some (s.toList.map (· == '1')))
 
-/-- A box given as a full matrix (rows = box vectors) is modelled only when it is a signed permutation
-of an orthorhombic box: it spans the same lattice as the axis-aligned box with the per-axis lengths,
-so the *sets* returned by `atoms`/`adj` are the same (`C14_periodic_exact`).  `none` = not such a matrix. -/
-def permBox (S : Nat) (m : List Int) : Option V3 :=
-  match m with
-  | [a, b, c, d, e, f, g, h, i] =>
-    let rowsOk := [[a, b, c], [d, e, f], [g, h, i]].all fun r => (r.filter (· ≠ 0)).length == 1
-    let colsOk := [[a, d, g], [b, e, h], [c, f, i]].all fun r => (r.filter (· ≠ 0)).length == 1
-    if rowsOk && colsOk then
-      some ⟨q S (a.natAbs + d.natAbs + g.natAbs : Nat), q S (b.natAbs + e.natAbs + h.natAbs : Nat),
-            q S (c.natAbs + f.natAbs + i.natAbs : Nat)⟩
-    else none
-  | _ => none
+inductive BoxArg where
+  | none | diag (b : V3) | full (B : M3)
 
-/-- `some none`: not periodic; `some (some b)`: box; `none`: malformed; a non-permutation matrix gives lengths 0 → `unmodelled`. -/
-def parseBox (S : Nat) (s : String) : Option (Option V3) :=
-  if s == "-" then some none else
+/-- `-`: not periodic; 3 integers: axis-aligned orthorhombic lengths (model `mk`); 9 integers: full box
+matrix, rows = box vectors (model `mkG`). -/
+def parseBox (S : Nat) (s : String) : Option BoxArg :=
+  if s == "-" then some .none else
   match parseInts s with
-  | some [a, b, c] => some (some ⟨q S a, q S b, q S c⟩)
-  | some m => if m.length == 9 then some (some ((permBox S m).getD ⟨0, 0, 0⟩)) else none
+  | some [a, b, c] => some (.diag ⟨q S a, q S b, q S c⟩)
+  | some [a, b, c, d, e, f, g, h, i] =>
+    some (.full ⟨⟨q S a, q S b, q S c⟩, ⟨q S d, q S e, q S f⟩, ⟨q S g, q S h, q S i⟩⟩)
   | _ => none
 
 def step (st : St) (line : String) : St × String :=
@@ -100,10 +93,14 @@ def step (st : St) (line : String) : St × String :=
     | some S, some cs, some sel, some ks =>
       match parseBox S box, toV3s S ks with
       | some box, some ps =>
-        match mk ps (q S cs) box sel with
+        let (res, gb) : Option (Except Err CL) × Option M3 := match box with
+          | .none => (mk ps (q S cs) none sel, none)
+          | .diag b => (mk ps (q S cs) (some b) sel, none)
+          | .full B => (mkG ps (q S cs) B sel, some B)
+        match res with
         | none => ({ S := S, cl := none }, "unmodelled")
         | some (.error e) => ({ S := S, cl := none }, "ERR:" ++ e.toString)
-        | some (.ok c) => ({ S := S, cl := some c }, "ok")
+        | some (.ok c) => ({ S := S, cl := some c, gbox := gb }, "ok")
       | _, _ => (st, "bad-op")
     | _, _, _, _ => (st, "bad-op")
   | [op, mode, shape, qs, rad] =>
@@ -117,9 +114,13 @@ def step (st : St) (line : String) : St × String :=
           let rad' : Rad Rat := match rad with
             | .scalar k => .scalar (q st.S k)
             | .multi ks => .multi (ks.map (q st.S))
-          (st, showRes c mode single (c.atomsBatchWith scChecked ps rad'))
+          match st.gbox with
+          | some B => (st, showRes c mode single (c.atomsBatchGWith scChecked B ps rad'))
+          | none => (st, showRes c mode single (c.atomsBatchWith scChecked ps rad'))
         else if op == "cells" then
-          (st, showRes c mode single (c.cellsBatchWith scChecked ps rad))
+          match st.gbox with
+          | some B => (st, showRes c mode single (c.cellsBatchGWith scChecked B ps rad))
+          | none => (st, showRes c mode single (c.cellsBatchWith scChecked ps rad))
         else (st, "bad-op")
       | none => (st, "bad-op")
     | none, _, _ => (st, "no-state")
@@ -127,7 +128,9 @@ def step (st : St) (line : String) : St × String :=
   | ["adj", thr] =>
     match st.cl, thr.toInt? with
     | some c, some k =>
-      match c.adjacencyWith scChecked (q st.S k) with
+      match (match st.gbox with
+             | some B => c.adjacencyGWith scChecked B (q st.S k)
+             | none => c.adjacencyWith scChecked (q st.S k)) with
       | none => (st, "unmodelled")
       | some (.error e) => (st, "ERR:" ++ e.toString)
       | some (.ok rows) => (st, showSets false rows)
